@@ -35,7 +35,11 @@ def check(run):
         # the audit sink is a side channel: the same histories with the sink unreachable (every RecordEvent fails)
         # must store and broadcast exactly the same
         down = [dict(x, auditdown=True) for x in (a[:: 1 if thorough else 3] + b[::4])]
-        scns += a + b + down
+        # the transmit queue as in production: broadcasts wait in it and a later one may invalidate an earlier one; at the end a
+        # fresh node receives what the origin's queue still holds, and must list what the origin lists
+        keep = [dict(x, keepqueue=True, ops=x["ops"] + [{"op": "held", "from": 1, "to": 8, "ms": list(range(1, nlocal(x) + 1))}])
+                for x in a[:: 1 if thorough else 2]]
+        scns += a + b + down + keep
         run.log("%s: %d exhaustive single-origin histories, %d simulated two-origin histories" % (mp, len(a), len(b)))
     tpath = crdtlib.execute(run, scns, "c09")
     v = vlib.Verdict(run)
@@ -48,7 +52,7 @@ def check(run):
         "distinct_nontrivial": bulk,
         "rule": "scenario = TLC-generated mutator sequence (exhaustive depth %d on one origin over 3 keys incl. bulk deletes touching 0, 1, >=2 "
                 "entries; simulated depth 7 with a second origin and up to 2 deliveries), probed after each step, closed by a fresh "
-                "receiver merging every broadcast; a share of them repeated with the audit sink unreachable; non-trivial = contains a bulk delete; evaluations = recorded events" % d,
+                "receiver merging every broadcast; a share of them repeated with the audit sink unreachable, and with a transmit queue that keeps its broadcasts (a later one may invalidate an earlier one) whose final content is delivered to another fresh receiver; non-trivial = contains a bulk delete; evaluations = recorded events" % d,
         "scenarios": len(scns), "trace_spec_states": tstates, "rejections": len(rejected), "exhaustive": True,
         "samples": [scns[0]["ops"], scns[len(scns) // 2]["ops"], {"trace_excerpt": vlib.head_events(tpath, 5)}],
     }, ["broadcast payloads are drained from memberlist.TransmitLimitedQueue.GetBroadcasts right after each mutator",
